@@ -2419,7 +2419,10 @@ func (c *compiler) VisitWhileStmt(s *ast.WhileStmt) ast.VisitResult {
 		}
 
 		c.cbb, c.scp = condBlock, c.exitScope(c.scp) // the condition is not in scope
+		// the condition is evaluated on every iteration, so its temporaries are collected and freed there
+		c.scp = newScope(c.scp)
 		cond, _, _ := c.evaluate(s.Condition)
+		c.scp = c.exitScope(c.scp)
 		leaveBlock := c.cf.NewBlock("")
 		c.commentNode(c.cbb, s, "")
 		c.cbb.NewCondBr(cond, body, leaveBlock)
